@@ -698,6 +698,55 @@ fn fea_include_corpus(base: &Base) -> Vec<MalCase> {
     ]
 }
 
+/// Inputs that are known to take the unrepaired process down, so that every run reports the
+/// same violation keys whatever the seed: parser nesting bombs (glyphs-reader plist parser,
+/// norad/plist deserialiser) and two number-parsing unwraps of glyphs-reader. Predicate only.
+fn crash_corpus(bases: &[Base]) -> Vec<MalCase> {
+    const D: usize = 20000;
+    let mut out = Vec::new();
+    let find = |label: &str| bases.iter().position(|b| b.label == label);
+    let mut push = |bi: usize, file: String, content: Vec<u8>, op: &str, fmt: &str| {
+        let mut ov = BTreeMap::new();
+        let n = content.len();
+        ov.insert(file.clone(), Some(content));
+        out.push(MalCase { base: bi, ov, muts: vec![json!({"op": op, "file": file, "bytes": n})], ops: vec![op.to_string()], formats: vec![fmt.to_string()] });
+    };
+    if let Some(bi) = find("glyphs3/WghtVar.glyphs") {
+        let f = bases[bi].entry.clone();
+        push(bi, f.clone(), format!("{{\n{}", "a = {".repeat(D)).into_bytes(), "nest-bomb:glyphs-braces", "glyphs");
+        push(bi, f, format!("{{\nuserData = {}", "(".repeat(D)).into_bytes(), "nest-bomb:glyphs-parens", "glyphs");
+    }
+    if let Some(bi) = find("generated-designspace") {
+        let f = bases[bi].entry.clone();
+        push(bi, f, format!("<?xml version='1.0' encoding='UTF-8'?>\n<designspace format=\"4.1\">\n<lib>\n{}", "<dict><key>a</key>".repeat(D)).into_bytes(), "nest-bomb:designspace-lib-dicts", "designspace");
+    }
+    if let Some(bi) = find("generated-ufo") {
+        if let Some(f) = bases[bi].files.keys().find(|k| k.ends_with("metainfo.plist")).cloned() {
+            push(bi, f, format!("{}{}", PLIST_HEAD, "<dict><key>a</key>".repeat(D)).into_bytes(), "nest-bomb:plist-dicts", "plist");
+        }
+    }
+    if let Some(bi) = find("glyphs3/NestedComponent.glyphs") {
+        let f = bases[bi].entry.clone();
+        if let Some(t) = bases[bi].files.get(&f).map(|b| String::from_utf8_lossy(b).into_owned()) {
+            if t.contains("unicode = 44;") {
+                push(bi, f, t.replacen("unicode = 44;", "unicode = 0.0000000001;", 1).into_bytes(), "number-out-of-range:unicode", "glyphs");
+            }
+        }
+    }
+    if let Some(bi) = find("glyphs2/WghtVar.glyphs") {
+        let f = bases[bi].entry.clone();
+        if let Some(t) = bases[bi].files.get(&f).map(|b| String::from_utf8_lossy(b).into_owned()) {
+            if let Some(i) = t.find("nodes = (\n\"") {
+                let j = i + "nodes = (\n\"".len();
+                let mut m = t.clone();
+                m.insert_str(j, "abc ");
+                push(bi, f, m.into_bytes(), "token-soup:node-string", "glyphs");
+            }
+        }
+    }
+    out
+}
+
 const FEA: &str = "languagesystem DFLT dflt;\nlanguagesystem latn dflt;\n@caps = [A B];\nfeature liga {\n    sub A B by Aacute;\n} liga;\nfeature ss01 {\n    sub A by B;\n} ss01;\n";
 
 fn base_glyphs(bold: bool) -> Vec<GlyphSrc> {
@@ -1418,6 +1467,7 @@ fn main() {
     cases.extend(gcycles.into_iter().map(Case::GCycle));
     if generated_ok {
         cases.extend(fea_include_corpus(&bases[0]).into_iter().map(Case::Mal));
+        cases.extend(crash_corpus(&bases).into_iter().map(Case::Mal));
     }
     let corpus_len = cases.len();
     let corpus_hang = cases.iter().filter(|c| matches!(c, Case::Graph(gc) if hang_prone(&gc.store, gc.flags))).count();
